@@ -376,6 +376,28 @@ Definition mon_C10 (c : cfg) (tr : trace) : list failure :=
                   else []
               end
           end end) (rpcs_of tr) ++
+      (* Stop returns only after every Serve call has returned (1004) *)
+      flat_map (fun e => match e with
+         | (a, Ret Ctl OOther _ 1 _ _ _ _ _ _) =>
+             let started := N.of_nat (length (filter (fun x => match snd x with Stim StOpen _ _ _ => fst x <? a | _ => false end) tr)) in
+             let returned := N.of_nat (length (filter (fun x => match snd x with ServeRet _ _ _ => fst x <=? a | _ => false end) tr)) in
+             let after_td := match td with Some x => x <=? a | None => false end in
+             if c_rev c && negb (c_raws c) && negb after_td && (returned <? started) then fl 1004 a 0 0 else []
+         | _ => [] end) tr ++
+      (* GracefulStop returns once the RPCs that were in flight have finished (1005), judged at the
+         end of a drained scenario: no call pending, every started handler has exited *)
+      (match td with
+       | Some tdn =>
+           let pre := before tdn tr in
+           let gs_ret := existsb (fun e => match snd e with Ret Ctl OOther _ 2 _ _ _ _ _ _ => true | _ => false end) pre in
+           let pending := existsb (fun w => negb (N.eqb (n_calls w tdn pre) (n_rets w tdn pre))) (all_whos tr) in
+           let handlers_out := forallb (fun e => match snd e with
+                                 | HStart r _ _ _ _ _ _ => existsb (fun e' => match snd e' with HExit r' => N.eqb r r' | _ => false end) pre
+                                 | _ => true end) pre in
+           if c_rev c && negb (c_raws c) && negb (c_rawc c) && negb gs_ret && negb pending && handlers_out &&
+              negb (has_stim (fun s => match s with StStop | StFail | StCtxEnd | StChClose => true | _ => false end) pre)
+           then fl 1005 (tdn - 1) 0 0 else []
+       | None => [] end) ++
       flat_map (fun e => match e with
          | (a, ChanDone t _) | (a, ServeRet t _ _) =>
              let after_td := match td with Some x => x <=? a | None => false end in
